@@ -310,19 +310,24 @@ class Regex(RegexReader):
         True
 
         """
-        productions, _ = self._get_production(starting_symbol)
+        productions, _ = self._get_production(
+            starting_symbol, start=cfg.utils.to_variable(starting_symbol))
         cfg_res = cfg.CFG(start_symbol=cfg.utils.to_variable(starting_symbol),
                           productions=set(productions))
         return cfg_res
 
-    def _get_production(self, current_symbol, count=0):
+    def _get_production(self, current_symbol, count=0, start=None):
         next_symbols = []
         next_productions = []
         for son in self.sons:
             next_symbol = "A" + str(count)
             count += 1
+            if cfg.utils.to_variable(next_symbol) == start:
+                # The name of the starting symbol is not a fresh one
+                next_symbol = "A" + str(count)
+                count += 1
             # pylint: disable=protected-access
-            new_prods, count = son._get_production(next_symbol, count)
+            new_prods, count = son._get_production(next_symbol, count, start)
             next_symbols.append(next_symbol)
             next_productions += new_prods
         new_prods = self.head.get_cfg_rules(current_symbol, next_symbols)
